@@ -40,7 +40,8 @@ func VerifC10Combine(v *vrt.T) {
 	for _, s := range c.lambdas {
 		ls = append(ls, c10Lambda(v, s))
 	}
-	pn := &pipeline.CombineNode{Lambdas: ls, Names: []string{"l", "r"}, Delimiter: ".", Max: 1000}
+	tol := []time.Duration{0, 10}[v.Choose("tolerance", v.Bound("tolerances", 2))]
+	pn := &pipeline.CombineNode{Lambdas: ls, Names: []string{"l", "r"}, Delimiter: ".", Max: 1000, Tolerance: tol}
 	n, err := newCombineNode(nil, pn, diag)
 	v.Assert(err == nil, "node created")
 	out := &c10Edge{}
@@ -63,14 +64,21 @@ func VerifC10Combine(v *vrt.T) {
 	ns := verifT2020
 	for i := 0; i < k; i++ {
 		if i > 0 {
-			ns += int64(v.IntRange("dt", 0, 1))
+			if tol == 0 {
+				ns += int64(v.IntRange("dt", 0, 1))
+			} else {
+				ns += int64(v.IntRange("dt", 0, 12))
+			}
+		} else if tol != 0 {
+			// the first point of a group need not be aligned to the tolerance
+			ns += int64(v.IntRange("t0", 0, 9))
 		}
 		tags := models.Tags{"h": "x"}
 		if x, ok := c10Tag(v, []int{c10TagByte, c10TagMissing}); ok {
 			tags["t"] = x
 		}
 		fields := models.Fields{"f": v.Int64("val")}
-		ins = append(ins, in{ns, c10CopyFields(fields), c10CopyTags(tags)})
+		ins = append(ins, in{c10RoundRef(ns, int64(tol)), c10CopyFields(fields), c10CopyTags(tags)}) // points are combined per rounded time
 		t := time.Unix(0, ns).UTC()
 		if batch {
 			bp := edge.NewBatchPointMessage(fields, tags, t)
